@@ -419,6 +419,10 @@ fn drive_scalars(sink: &mut Sink, rng: &mut Rng, n: usize) {
 const QKEYS: &[&str] = &[
     "k", "K", "ka", "k_", "K_", "kb", "k1", "KA", "a.b", "A.B", "a-b", "z", "Z", "zz", "z_", "checksum", "CHECKSUM", "repository_url", "Repository_Url",
     "", "!", "a b", "é", "\u{212A}", "k\u{17F}", "a=b", "a&b", "%6B", "k ", " k",
+    // keys around 32 and 64 characters, one the prefix of the other
+    "abcdefghijklmnopqrstuvwxyz01234", "abcdefghijklmnopqrstuvwxyz012345", "abcdefghijklmnopqrstuvwxyz0123456", "ABCDEFGHIJKLMNOPQRSTUVWXYZ0123456",
+    "abcdefghijklmnopqrstuvwxyz0123457", "org.example.build.reproducible_flags.with-a-very-long-qualifier-key",
+    "org.example.build.reproducible_flags.with-a-very-long-qualifier-key2",
 ];
 const QVALS: &[&str] = &["", "x", "y", "a&b=c", "%41", "é", " ", "sha1:00ff", "B:0A,a:fF", "zz", "a:0", "v#s", "\u{0}"];
 
@@ -993,6 +997,20 @@ fn drive_pairs(sink: &mut Sink, rng: &mut Rng, n: usize, corpus: &[String]) {
             pool.push(p);
         }
     }
+    // families that differ in one component only, its text drawn from strings on which a "smart" comparison
+    // (numeric, natural, case-folding, locale) and the plain one disagree
+    const ORDER_TEXTS: &[&str] = &["2", "10", "1a", "01", "1", "1.2.0", "1.10.0", "1.1rc.0", "v2", "v10", "a", "B", "b", "ab", "a.b", "a-b", "a_b", "Z", "z", "é", "e", "", "1e1", "0x10", "١"];
+    for x in ORDER_TEXTS {
+        let e: String = x.bytes().map(|b| format!("%{:02X}", b)).collect();
+        for s in [format!("pkg:generic/ns/name@{e}"), format!("pkg:generic/ns/x{e}@1"), format!("pkg:generic/n{e}/name@1"), format!("pkg:generic/ns/name@1#s{e}"),
+                  format!("pkg:generic/ns/name@1?k={e}"), format!("pkg:t{x}/ns/name@1"), format!("pkg:generic/ns/name@1?k{x}=v&k=w")] {
+            if let Ok(p) = GenericPurl::<String>::from_str(&s) {
+                pool.push(p);
+            }
+        }
+    }
+    sink.ctx.case = json!({"pool": pool.len()});
+    replay::check_pool(&mut sink.ctx, pool.clone());
     let h = |p: &GenericPurl<String>| {
         let mut st = std::collections::hash_map::DefaultHasher::new();
         p.hash(&mut st);
